@@ -3,4 +3,707 @@ import DC.Model.Conc
 
 namespace DC.Conc
 
+variable {DB Res : Type}
+
+/-! ### replay -/
+
+theorem replay_cons (db0 : DB) (e : Entry DB Res) (l : List (Entry DB Res)) :
+    replay db0 (e :: l) = replay (applyEntry db0 e).1 l := by
+  simp [replay]
+
+theorem replay_append (db0 : DB) (l : List (Entry DB Res)) (e : Entry DB Res) :
+    replay db0 (l ++ [e]) = (applyEntry (replay db0 l) e).1 := by
+  simp [replay, List.foldl_append]
+
+theorem replayRes_append (db0 : DB) (l : List (Entry DB Res)) (e : Entry DB Res) :
+    replayRes db0 (l ++ [e]) = replayRes db0 l ++ [(applyEntry (replay db0 l) e).2] := by
+  induction l generalizing db0 with
+  | nil => simp [replayRes, replay]
+  | cons a l ih => simp [replayRes, replay_cons, ih]
+
+theorem applyEntry_read (db : DB) (cid : Nat) (g : DB → Res) (f : Option FName) (r : Res) :
+    applyEntry db (⟨cid, .read g, f, r⟩ : Entry DB Res) = (db, g db) := rfl
+
+theorem applyEntry_txn (db : DB) (cid : Nat) (fr rt : Bool) (b : Body DB Res) (f : Option FName)
+    (r0 : Res) (w : DB) (r : Res) (ok : Bool) (cl : List FName) (hb : b.run db f = (w, r, ok, cl)) :
+    applyEntry db (⟨cid, .txn fr rt b, f, r0⟩ : Entry DB Res) = (if ok then w else db, r) := by
+  simp [applyEntry, hb]
+
+/-! ### the protocol invariant -/
+
+/-- result already logged but not yet appended to `results` -/
+def pending : Pc DB Res → List Res
+  | .cleaning r _ => [r]
+  | .undo (some r) _ => [r]
+  | _ => []
+
+def InvLog (db0 : DB) (s : Sys DB Res) : Prop :=
+  s.db = replay db0 s.log ∧ s.log.map (·.res) = replayRes db0 s.log
+
+def InvBegun (s : Sys DB Res) : Prop :=
+  ∀ (i : Nat) (c : Client DB Res) (f : Option FName) (w : DB),
+    s.clients[i]? = some c → c.pc = .begun f w →
+      s.lock = some i ∧ w = s.db ∧ ∃ fr rt b rest, c.prog = Op.txn fr rt b :: rest
+
+def InvRan (s : Sys DB Res) : Prop :=
+  ∀ (i : Nat) (c : Client DB Res) (f : Option FName) (w : DB) (r : Res) (ok : Bool)
+    (cl : List FName), s.clients[i]? = some c → c.pc = .ran f w r ok cl →
+      s.lock = some i ∧ ∃ fr rt b rest, c.prog = Op.txn fr rt b :: rest ∧
+        b.run s.db f = (w, r, ok, cl)
+
+def InvHeld (s : Sys DB Res) : Prop :=
+  ∀ (i : Nat), s.lock = some i → ∃ c, s.clients[i]? = some c ∧
+    ((∃ f w, c.pc = Pc.begun f w) ∨ (∃ f w r ok cl, c.pc = Pc.ran f w r ok cl))
+
+structure Inv (db0 : DB) (s : Sys DB Res) : Prop where
+  hlog : InvLog db0 s
+  begun : InvBegun s
+  ran : InvRan s
+  held : InvHeld s
+
+theorem Inv.hdb {db0 : DB} {s : Sys DB Res} (h : Inv db0 s) : s.db = replay db0 s.log := h.hlog.1
+
+theorem Inv.hres {db0 : DB} {s : Sys DB Res} (h : Inv db0 s) :
+    s.log.map (·.res) = replayRes db0 s.log := h.hlog.2
+
+/-! ### a case view of `step` -/
+
+theorem getElem?_set_cases {α : Type} {l : List α} {i j : Nat} {a b : α}
+    (h : (l.set i a)[j]? = some b) : (j = i ∧ b = a) ∨ (j ≠ i ∧ l[j]? = some b) := by
+  by_cases hji : j = i
+  · left
+    subst hji
+    refine ⟨rfl, ?_⟩
+    rw [List.getElem?_set] at h
+    simp at h
+    exact h.2.symm
+  · right
+    refine ⟨hji, ?_⟩
+    rw [List.getElem?_set_ne (by omega)] at h
+    exact h
+
+/-- the effective micro-steps of client `cid`, currently `c` -/
+inductive Step (s : Sys DB Res) (cid : Nat) (c : Client DB Res) : Sys DB Res → Prop
+  | read (g : DB → Res) (rest : List (Op DB Res)) :
+      c.pc = .idle → c.prog = .read g :: rest →
+      Step s cid c { s with clients := s.clients.set cid (finish c (some (g s.db))),
+                            log := s.log ++ [⟨cid, .read g, none, g s.db⟩] }
+  | write (rt : Bool) (b : Body DB Res) (rest : List (Op DB Res)) :
+      c.pc = .idle → c.prog = .txn true rt b :: rest →
+      Step s cid c { s with clients := s.clients.set cid { c with pc := .wrote s.nextFile },
+                            files := s.nextFile :: s.files, nextFile := s.nextFile + 1 }
+  | begin0 (rt : Bool) (b : Body DB Res) (rest : List (Op DB Res)) :
+      c.pc = .idle → c.prog = .txn false rt b :: rest → s.lock = none →
+      Step s cid c { s with clients := s.clients.set cid { c with pc := .begun none s.db },
+                            lock := some cid }
+  | begin1 (f : FName) (fr rt : Bool) (b : Body DB Res) (rest : List (Op DB Res)) :
+      c.pc = .wrote f → c.prog = .txn fr rt b :: rest → s.lock = none →
+      Step s cid c { s with clients := s.clients.set cid { c with pc := .begun (some f) s.db },
+                            lock := some cid }
+  | timeout0 (b : Body DB Res) (rest : List (Op DB Res)) (other : Nat) :
+      c.pc = .idle → c.prog = .txn false false b :: rest → s.lock = some other →
+      Step s cid c { s with clients := s.clients.set cid (finish c none) }
+  | timeout1 (f : FName) (fr : Bool) (b : Body DB Res) (rest : List (Op DB Res)) (other : Nat) :
+      c.pc = .wrote f → c.prog = .txn fr false b :: rest → s.lock = some other →
+      Step s cid c { s with clients := s.clients.set cid { c with pc := .undo none (some f) } }
+  | body (f : Option FName) (w : DB) (fr rt : Bool) (b : Body DB Res) (rest : List (Op DB Res))
+      (w' : DB) (r : Res) (ok : Bool) (cl : List FName) :
+      c.pc = .begun f w → c.prog = .txn fr rt b :: rest → b.run w f = (w', r, ok, cl) →
+      Step s cid c { s with clients := s.clients.set cid { c with pc := .ran f w' r ok cl } }
+  | commit (f : Option FName) (w : DB) (r : Res) (cl : List FName) (op : Op DB Res)
+      (rest : List (Op DB Res)) :
+      c.pc = .ran f w r true cl → c.prog = op :: rest →
+      Step s cid c { s with clients := s.clients.set cid { c with pc := .cleaning r cl },
+                            db := w, lock := none, log := s.log ++ [⟨cid, op, f, r⟩] }
+  | rollback (f : Option FName) (w : DB) (r : Res) (cl : List FName) (op : Op DB Res)
+      (rest : List (Op DB Res)) :
+      c.pc = .ran f w r false cl → c.prog = op :: rest →
+      Step s cid c { s with clients := s.clients.set cid { c with pc := .undo (some r) f },
+                            lock := none, log := s.log ++ [⟨cid, op, f, r⟩] }
+  | clean (r : Res) (x : FName) (cl : List FName) :
+      c.pc = .cleaning r (x :: cl) →
+      Step s cid c { s with clients := s.clients.set cid { c with pc := .cleaning r cl },
+                            files := s.files.filter (· != x) }
+  | cleaned (r : Res) :
+      c.pc = .cleaning r [] →
+      Step s cid c { s with clients := s.clients.set cid (finish c (some r)) }
+  | unlink (r : Option Res) (f : FName) :
+      c.pc = .undo r (some f) →
+      Step s cid c { s with clients := s.clients.set cid { c with pc := .undo r none },
+                            files := s.files.filter (· != f) }
+  | undone (r : Option Res) :
+      c.pc = .undo r none →
+      Step s cid c { s with clients := s.clients.set cid (finish c r) }
+
+theorem step_unlink {s : Sys DB Res} {cid : Nat} {c : Client DB Res} {r : Option Res} {f : FName}
+    (hc : s.clients[cid]? = some c) (hpc : c.pc = .undo r (some f)) :
+    step s cid = { (setClient s cid { c with pc := .undo r none }) with
+      files := s.files.filter (· != f) } := by
+  simp [step, hc, hpc]
+
+theorem step_undone {s : Sys DB Res} {cid : Nat} {c : Client DB Res} {r : Option Res}
+    (hc : s.clients[cid]? = some c) (hpc : c.pc = .undo r none) :
+    step s cid = setClient s cid (finish c r) := by
+  simp [step, hc, hpc]
+
+/-- every property that survives a stutter and every effective micro-step survives `step` -/
+theorem step_cases {P : Sys DB Res → Prop} (s : Sys DB Res) (cid : Nat) (h0 : P s)
+    (h1 : ∀ c s', s.clients[cid]? = some c → Step s cid c s' → P s') : P (step s cid) := by
+  unfold step
+  split
+  · exact h0
+  · rename_i c hc
+    split
+    · exact h0
+    · rename_i g rest hpc hprog
+      exact h1 c _ hc (.read g rest hpc hprog)
+    · rename_i rt b rest hpc hprog
+      exact h1 c _ hc (.write rt b rest hpc hprog)
+    · rename_i rt b rest hpc hprog
+      split
+      · rename_i hl
+        exact h1 c _ hc (.begin0 rt b rest hpc hprog hl)
+      · rename_i other hl
+        split
+        · exact h0
+        · rename_i hrt
+          simp at hrt; subst hrt
+          exact h1 c _ hc (.timeout0 b rest other hpc hprog hl)
+    · rename_i f fr rt b rest hpc hprog
+      split
+      · rename_i hl
+        exact h1 c _ hc (.begin1 f fr rt b rest hpc hprog hl)
+      · rename_i other hl
+        split
+        · exact h0
+        · rename_i hrt
+          simp at hrt; subst hrt
+          exact h1 c _ hc (.timeout1 f fr b rest other hpc hprog hl)
+    · rename_i f w fr rt b rest hpc hprog
+      rcases hb : b.run w f with ⟨w', r, ok, cl⟩
+      exact h1 c _ hc (.body f w fr rt b rest w' r ok cl hpc hprog hb)
+    · rename_i f w r cl op rest hpc hprog
+      exact h1 c _ hc (.commit f w r cl op rest hpc hprog)
+    · rename_i f w r cl op rest hpc hprog
+      exact h1 c _ hc (.rollback f w r cl op rest hpc hprog)
+    · rename_i r x cl hpc
+      exact h1 c _ hc (.clean r x cl hpc)
+    · rename_i r hpc
+      exact h1 c _ hc (.cleaned r hpc)
+    · rename_i r f hpc
+      exact h1 c _ hc (.unlink r f hpc)
+    · rename_i r hpc
+      exact h1 c _ hc (.undone r hpc)
+    · exact h0
+
+theorem Inv_step_log {db0 : DB} {s : Sys DB Res} (h : Inv db0 s) (cid : Nat) :
+    InvLog db0 (step s cid) := by
+  apply step_cases s cid ⟨h.hdb, h.hres⟩
+  intro c s' hc hs
+  have hRc := h.ran cid c
+  cases hs
+  case read g rest hpc hprog =>
+    simp [InvLog, replay_append, replayRes_append, ← h.hdb, h.hres, applyEntry_read]
+  case commit f w r cl op rest hpc hprog =>
+    obtain ⟨hl, fr, rt, b, rest', hp', hb⟩ := hRc f w r _ cl hc hpc
+    rw [hprog] at hp'
+    obtain ⟨rfl, rfl⟩ := List.cons.inj hp'
+    simp [InvLog, replay_append, replayRes_append, ← h.hdb, h.hres,
+      applyEntry_txn _ _ _ _ _ _ _ _ _ _ _ hb]
+  case rollback f w r cl op rest hpc hprog =>
+    obtain ⟨hl, fr, rt, b, rest', hp', hb⟩ := hRc f w r _ cl hc hpc
+    rw [hprog] at hp'
+    obtain ⟨rfl, rfl⟩ := List.cons.inj hp'
+    simp [InvLog, replay_append, replayRes_append, ← h.hdb, h.hres,
+      applyEntry_txn _ _ _ _ _ _ _ _ _ _ _ hb]
+  all_goals exact ⟨h.hdb, h.hres⟩
+
+theorem Inv_step_begun {db0 : DB} {s : Sys DB Res} (h : Inv db0 s) (cid : Nat) :
+    InvBegun (step s cid) := by
+  apply step_cases s cid h.begun
+  intro c s' hc hs
+  have hB := h.begun
+  have hR := h.ran
+  have hBc := h.begun cid c
+  have hRc := h.ran cid c
+  simp only [InvBegun, InvRan] at hB hR ⊢
+  cases hs
+  all_goals (simp only []; grind [getElem?_set_cases, finish])
+
+theorem Inv_step_ran {db0 : DB} {s : Sys DB Res} (h : Inv db0 s) (cid : Nat) :
+    InvRan (step s cid) := by
+  apply step_cases s cid h.ran
+  intro c s' hc hs
+  have hB := h.begun
+  have hR := h.ran
+  have hBc := h.begun cid c
+  have hRc := h.ran cid c
+  simp only [InvBegun, InvRan] at hB hR ⊢
+  cases hs
+  all_goals (simp only []; grind [getElem?_set_cases, finish])
+
+theorem Inv_step_held {db0 : DB} {s : Sys DB Res} (h : Inv db0 s) (cid : Nat) :
+    InvHeld (step s cid) := by
+  apply step_cases s cid h.held
+  intro c s' hc hs
+  have hH := h.held
+  have hlen : cid < s.clients.length := (List.getElem?_eq_some_iff.1 hc).1
+  simp only [InvHeld] at hH ⊢
+  cases hs
+  case begin0 =>
+    intro i hi
+    simp only [Option.some.injEq] at hi
+    subst hi
+    refine ⟨_, List.getElem?_set_self hlen, Or.inl ⟨_, _, rfl⟩⟩
+  case begin1 =>
+    intro i hi
+    simp only [Option.some.injEq] at hi
+    subst hi
+    refine ⟨_, List.getElem?_set_self hlen, Or.inl ⟨_, _, rfl⟩⟩
+  all_goals (simp only []; grind [finish])
+
+theorem Inv_step {db0 : DB} {s : Sys DB Res} (h : Inv db0 s) (cid : Nat) :
+    Inv db0 (step s cid) :=
+  ⟨Inv_step_log h cid, Inv_step_begun h cid, Inv_step_ran h cid,
+    Inv_step_held h cid⟩
+
+theorem Inv_init {s : Sys DB Res} (hl : s.lock = none) (hlog : s.log = [])
+    (hidle : ∀ c ∈ s.clients, c.pc = Pc.idle ∧ c.results = []) : Inv s.db s := by
+  refine ⟨by simp [InvLog, hlog, replay, replayRes], ?_, ?_, by simp [InvHeld, hl]⟩
+  · intro i c f w hi hpc
+    have := (hidle c (List.mem_of_getElem? hi)).1
+    simp [this] at hpc
+  · intro i c f w r ok cl hi hpc
+    have := (hidle c (List.mem_of_getElem? hi)).1
+    simp [this] at hpc
+
+theorem Inv_run {db0 : DB} {s : Sys DB Res} (h : Inv db0 s) (sched : List Nat) :
+    Inv db0 (run s sched) := by
+  induction sched generalizing s with
+  | nil => exact h
+  | cons a l ih => exact ih (Inv_step h a)
+
+theorem Inv_crash {db0 : DB} {s : Sys DB Res} (h : Inv db0 s) (victim : Nat) :
+    Inv db0 (crash s victim) := by
+  have hB := h.begun
+  have hR := h.ran
+  have hH := h.held
+  unfold crash
+  split
+  · exact h
+  · rename_i c hc
+    have hlen : victim < s.clients.length := (List.getElem?_eq_some_iff.1 hc).1
+    simp only [InvBegun, InvRan, InvHeld] at hB hR hH
+    refine ⟨h.hlog, ?_, ?_, ?_⟩
+    all_goals (simp only [setClient, InvBegun, InvRan, InvHeld]; grind [getElem?_set_cases])
+
+theorem crash_lock {db0 : DB} {s : Sys DB Res} (h : Inv db0 s) (victim : Nat) :
+    (crash s victim).lock ≠ some victim := by
+  unfold crash
+  split
+  · rename_i hc
+    intro hl
+    obtain ⟨c, hc', _⟩ := h.held victim hl
+    simp [hc'] at hc
+  · simp only []
+    split <;> simp_all
+
+/-! ### results -/
+
+def ResInv (s : Sys DB Res) : Prop :=
+  ∀ (i : Nat) (c : Client DB Res), s.clients[i]? = some c →
+    c.results.filterMap id ++ pending c.pc = (s.log.filter (fun e => e.cid == i)).map (·.res)
+
+theorem ResInv_step {s : Sys DB Res} (h : ResInv s) (cid : Nat) : ResInv (step s cid) := by
+  apply step_cases s cid h
+  intro c s' hc hs
+  have hcid := h cid c hc
+  cases hs
+  case unlink r f hpc =>
+    intro i ci hi
+    rcases getElem?_set_cases hi with ⟨rfl, rfl⟩ | ⟨hne, hi'⟩
+    · cases r <;> simp_all [pending]
+    · exact h i ci hi'
+  case undone r hpc =>
+    intro i ci hi
+    rcases getElem?_set_cases hi with ⟨rfl, rfl⟩ | ⟨hne, hi'⟩
+    · cases r <;> simp_all [pending, finish, List.filterMap_append]
+    · exact h i ci hi'
+  all_goals
+    intro i ci hi
+    rcases getElem?_set_cases hi with ⟨rfl, rfl⟩ | ⟨hne, hi'⟩
+    · simp_all [pending, finish, List.filter_append, List.filterMap_append]
+    · have := h i ci hi'
+      have hne' : ¬ cid = i := fun e => hne e.symm
+      simp_all [pending, finish, List.filter_append]
+
+theorem ResInv_run {s : Sys DB Res} (h : ResInv s) (sched : List Nat) : ResInv (run s sched) := by
+  induction sched generalizing s with
+  | nil => exact h
+  | cons a l ih => exact ih (ResInv_step h a)
+
+theorem ResInv_init {s : Sys DB Res} (hlog : s.log = [])
+    (hidle : ∀ c ∈ s.clients, c.pc = Pc.idle ∧ c.results = []) : ResInv s := by
+  intro i c hi
+  have := hidle c (List.mem_of_getElem? hi)
+  simp [this, hlog, pending]
+
+/-! ### value files -/
+
+/-- copy of `BodyOk` of C05 (which is defined downstream) -/
+def BodySafe (refs : DB → List FName) (b : Body DB Res) : Prop :=
+  ∀ db f w r ok cl, b.run db f = (w, r, ok, cl) → ok = true →
+    (∀ x ∈ refs w, x ∈ refs db ∨ some x = f) ∧ (∀ x ∈ cl, x ∉ refs w) ∧
+    (∀ x ∈ cl, x ∈ refs db ∨ some x = f)
+
+def ProgsSafe (refs : DB → List FName) (s : Sys DB Res) : Prop :=
+  ∀ c ∈ s.clients, ∀ fr rt b, Op.txn fr rt b ∈ c.prog → BodySafe refs b
+
+/-- the fresh value file a client has written and not yet published or removed -/
+def freshOf : Pc DB Res → Option FName
+  | .wrote f => some f
+  | .begun f _ => f
+  | .ran f _ _ _ _ => f
+  | .undo _ f => f
+  | _ => none
+
+/-- the files a client is still going to remove after its COMMIT -/
+def cleanOf : Pc DB Res → List FName
+  | .cleaning _ cl => cl
+  | _ => []
+
+def FLt (s : Sys DB Res) : Prop := ∀ x ∈ s.files, x < s.nextFile
+
+def FRefd (refs : DB → List FName) (s : Sys DB Res) : Prop := ∀ x ∈ refs s.db, x ∈ s.files
+
+def FFresh (refs : DB → List FName) (s : Sys DB Res) : Prop :=
+  ∀ (i : Nat) (c : Client DB Res) (f : FName), s.clients[i]? = some c → freshOf c.pc = some f →
+    f ∈ s.files ∧ f ∉ refs s.db
+
+def FDistinct (s : Sys DB Res) : Prop :=
+  ∀ (i j : Nat) (ci cj : Client DB Res) (f : FName), s.clients[i]? = some ci →
+    s.clients[j]? = some cj → i ≠ j → freshOf ci.pc = some f →
+      freshOf cj.pc ≠ some f ∧ f ∉ cleanOf cj.pc
+
+def FClean (refs : DB → List FName) (s : Sys DB Res) : Prop :=
+  ∀ (i : Nat) (c : Client DB Res) (x : FName), s.clients[i]? = some c → x ∈ cleanOf c.pc →
+    x ∉ refs s.db ∧ x < s.nextFile
+
+structure FInv (refs : DB → List FName) (s : Sys DB Res) : Prop where
+  progs : ProgsSafe refs s
+  lt : FLt s
+  refd : FRefd refs s
+  fresh : FFresh refs s
+  distinct : FDistinct s
+  clean : FClean refs s
+
+theorem commit_facts {refs : DB → List FName} {db0 : DB} {s : Sys DB Res} (hI : Inv db0 s)
+    (hp : ProgsSafe refs s) {cid : Nat} {c : Client DB Res} {f : Option FName} {w : DB} {r : Res}
+    {cl : List FName} (hc : s.clients[cid]? = some c) (hpc : c.pc = .ran f w r true cl) :
+    (∀ x ∈ refs w, x ∈ refs s.db ∨ some x = f) ∧ (∀ x ∈ cl, x ∉ refs w) ∧
+    (∀ x ∈ cl, x ∈ refs s.db ∨ some x = f) := by
+  obtain ⟨_, fr, rt, b, rest', hp', hb⟩ := hI.ran cid c f w r true cl hc hpc
+  have hbs : BodySafe refs b :=
+    hp c (List.mem_of_getElem? hc) fr rt b (by rw [hp']; exact List.mem_cons_self)
+  exact hbs _ _ _ _ _ _ hb rfl
+
+theorem ProgsSafe_step {refs : DB → List FName} {s : Sys DB Res} (h : ProgsSafe refs s)
+    (cid : Nat) : ProgsSafe refs (step s cid) := by
+  apply step_cases s cid h
+  intro c s' hc hs
+  have hcm := h c (List.mem_of_getElem? hc)
+  have key : ∀ c' : Client DB Res, (∀ op ∈ c'.prog, op ∈ c.prog) →
+      ∀ cs db lk fl nf lg, cs = s.clients.set cid c' →
+      ProgsSafe refs ({ db := db, lock := lk, clients := cs, files := fl, nextFile := nf, log := lg } : Sys DB Res) := by
+    intro c' hsub cs db lk fl nf lg hcs ci hci fr rt b hm
+    subst hcs
+    rcases List.mem_iff_getElem?.1 hci with ⟨i, hi⟩
+    rcases getElem?_set_cases hi with ⟨_, rfl⟩ | ⟨_, hi'⟩
+    · exact hcm fr rt b (hsub _ hm)
+    · exact h ci (List.mem_of_getElem? hi') fr rt b hm
+  cases hs
+  all_goals
+    apply key _ _ _ _ _ _ _ _ rfl
+    intro op hop
+    first
+      | exact hop
+      | exact List.mem_of_mem_tail hop
+
+theorem FLt_step {refs : DB → List FName} {s : Sys DB Res} (h : FInv refs s) (cid : Nat) :
+    FLt (step s cid) := by
+  apply step_cases s cid h.lt
+  intro c s' hc hs
+  have hlt := h.lt
+  simp only [FLt] at hlt ⊢
+  cases hs
+  all_goals (simp only []; grind)
+
+theorem FRefd_step {refs : DB → List FName} {db0 : DB} {s : Sys DB Res} (hI : Inv db0 s)
+    (h : FInv refs s) (cid : Nat) : FRefd refs (step s cid) := by
+  apply step_cases s cid h.refd
+  intro c s' hc hs
+  have hlt := h.lt
+  have hrefd := h.refd
+  have hfresh := h.fresh cid c
+  have hclean := h.clean cid c
+  simp only [FLt, FRefd] at hlt hrefd ⊢
+  cases hs
+  case commit f w r cl op rest hpc hprog =>
+    obtain ⟨hA, hB, hC⟩ := commit_facts hI h.progs hc hpc
+    simp only [hpc, freshOf, cleanOf] at hfresh hclean
+    simp only []
+    grind
+  all_goals (simp only []; simp_all only [freshOf, cleanOf]; grind)
+
+theorem set_proj {l : List (Client DB Res)} {cid i : Nat} {c c' ci : Client DB Res}
+    (hc : l[cid]? = some c) (hi : (l.set cid c')[i]? = some ci) :
+    ∃ ci0, l[i]? = some ci0 ∧ ((i = cid ∧ ci0 = c ∧ ci = c') ∨ (i ≠ cid ∧ ci0 = ci)) := by
+  rcases getElem?_set_cases hi with ⟨rfl, rfl⟩ | ⟨hne, hi'⟩
+  · exact ⟨c, hc, Or.inl ⟨rfl, rfl, rfl⟩⟩
+  · exact ⟨ci, hi', Or.inr ⟨hne, rfl⟩⟩
+
+/-- a step that changes neither the database nor the files, and does not extend the client's
+fresh / cleanup names -/
+theorem F_frame {refs : DB → List FName} {s : Sys DB Res} {cid : Nat} {c c' : Client DB Res}
+    (hc : s.clients[cid]? = some c) (hf : ∀ f, freshOf c'.pc = some f → freshOf c.pc = some f)
+    (hcl : ∀ x, x ∈ cleanOf c'.pc → x ∈ cleanOf c.pc) (lk : Option Nat)
+    (lg : List (Entry DB Res)) :
+    (FFresh refs s → FFresh refs { s with clients := s.clients.set cid c', lock := lk, log := lg }) ∧
+    (FDistinct s → FDistinct { s with clients := s.clients.set cid c', lock := lk, log := lg }) ∧
+    (FClean refs s → FClean refs { s with clients := s.clients.set cid c', lock := lk, log := lg }) := by
+  have key : ∀ (i : Nat) (ci : Client DB Res), (s.clients.set cid c')[i]? = some ci →
+      ∃ ci0 : Client DB Res, s.clients[i]? = some ci0 ∧
+      (∀ f, freshOf ci.pc = some f → freshOf ci0.pc = some f) ∧
+      (∀ x, x ∈ cleanOf ci.pc → x ∈ cleanOf ci0.pc) := by
+    intro i ci hi
+    obtain ⟨ci0, hi0, ⟨_, rfl, rfl⟩ | ⟨_, rfl⟩⟩ := set_proj hc hi
+    · exact ⟨_, hi0, hf, hcl⟩
+    · exact ⟨_, hi0, fun _ h => h, fun _ h => h⟩
+  refine ⟨?_, ?_, ?_⟩
+  · intro h i ci f hi hfi
+    obtain ⟨ci0, hi0, e1, e2⟩ := key i ci hi
+    exact h i ci0 f hi0 (e1 f hfi)
+  · intro h i j ci cj f hi hj hne hfi
+    obtain ⟨ci0, hi0, e1, e2⟩ := key i ci hi
+    obtain ⟨cj0, hj0, e3, e4⟩ := key j cj hj
+    have := h i j ci0 cj0 f hi0 hj0 hne (e1 f hfi)
+    exact ⟨fun e => this.1 (e3 f e), fun e => this.2 (e4 f e)⟩
+  · intro h i ci x hi hx
+    obtain ⟨ci0, hi0, e1, e2⟩ := key i ci hi
+    exact h i ci0 x hi0 (e2 x hx)
+
+theorem FFresh_step {refs : DB → List FName} {db0 : DB} {s : Sys DB Res} (hI : Inv db0 s)
+    (h : FInv refs s) (cid : Nat) : FFresh refs (step s cid) := by
+  apply step_cases s cid h.fresh
+  intro c s' hc hs
+  have hlt := h.lt
+  have hrefd := h.refd
+  simp only [FLt, FRefd] at hlt hrefd
+  cases hs
+  case write rt b rest hpc hprog =>
+    intro i ci f hi hfi
+    simp only [] at hi ⊢
+    rcases getElem?_set_cases hi with ⟨rfl, rfl⟩ | ⟨hne, hi'⟩
+    · simp only [freshOf, Option.some.injEq] at hfi
+      subst hfi
+      refine ⟨List.mem_cons_self, fun hm => ?_⟩
+      exact Nat.lt_irrefl _ (hlt _ (hrefd _ hm))
+    · have := h.fresh i ci f hi' hfi
+      exact ⟨List.mem_cons_of_mem _ this.1, this.2⟩
+  case commit f w r cl op rest hpc hprog =>
+    obtain ⟨hA, hB, hC⟩ := commit_facts hI h.progs hc hpc
+    intro i ci fi hi hfi
+    simp only [] at hi ⊢
+    rcases getElem?_set_cases hi with ⟨rfl, rfl⟩ | ⟨hne, hi'⟩
+    · simp [freshOf] at hfi
+    · have ⟨h1, h2⟩ := h.fresh i ci fi hi' hfi
+      refine ⟨h1, fun hw => ?_⟩
+      rcases hA fi hw with h3 | h3
+      · exact h2 h3
+      · have := (h.distinct i cid ci c fi hi' hc hne hfi).1
+        simp only [hpc, freshOf] at this
+        exact this h3.symm
+  case clean r x cl hpc =>
+    intro i ci fi hi hfi
+    simp only [] at hi ⊢
+    rcases getElem?_set_cases hi with ⟨rfl, rfl⟩ | ⟨hne, hi'⟩
+    · simp [freshOf] at hfi
+    · have ⟨h1, h2⟩ := h.fresh i ci fi hi' hfi
+      have := (h.distinct i cid ci c fi hi' hc hne hfi).2
+      simp only [hpc, cleanOf] at this
+      refine ⟨?_, h2⟩
+      rw [List.mem_filter]
+      refine ⟨h1, ?_⟩
+      simp only [bne_iff_ne, ne_eq]
+      intro e; subst e
+      exact this List.mem_cons_self
+  case unlink r f hpc =>
+    intro i ci fi hi hfi
+    simp only [] at hi ⊢
+    rcases getElem?_set_cases hi with ⟨rfl, rfl⟩ | ⟨hne, hi'⟩
+    · simp [freshOf] at hfi
+    · have ⟨h1, h2⟩ := h.fresh i ci fi hi' hfi
+      have := (h.distinct i cid ci c fi hi' hc hne hfi).1
+      simp only [hpc, freshOf] at this
+      refine ⟨?_, h2⟩
+      rw [List.mem_filter]
+      refine ⟨h1, ?_⟩
+      simp only [bne_iff_ne, ne_eq]
+      intro e; subst e
+      exact this rfl
+  all_goals
+    exact (F_frame hc (by rw [‹c.pc = _›]; exact fun _ h => h) (by rw [‹c.pc = _›]; exact fun _ h => h) _ _).1 h.fresh
+
+theorem FDistinct_step {refs : DB → List FName} {db0 : DB} {s : Sys DB Res} (hI : Inv db0 s)
+    (h : FInv refs s) (cid : Nat) : FDistinct (step s cid) := by
+  apply step_cases s cid h.distinct
+  intro c s' hc hs
+  have hlt := h.lt
+  have hrefd := h.refd
+  simp only [FLt, FRefd] at hlt hrefd
+  cases hs
+  case write rt b rest hpc hprog =>
+    intro i j ci cj f hi hj hij hfi
+    simp only [] at hi hj ⊢
+    rcases getElem?_set_cases hi with ⟨rfl, rfl⟩ | ⟨hne, hi'⟩
+    · rcases getElem?_set_cases hj with ⟨rfl, rfl⟩ | ⟨hne', hj'⟩
+      · exact absurd rfl hij
+      · simp only [freshOf, Option.some.injEq] at hfi
+        subst hfi
+        refine ⟨fun e => ?_, fun e => ?_⟩
+        · exact Nat.lt_irrefl _ (hlt _ (h.fresh j cj _ hj' e).1)
+        · exact Nat.lt_irrefl _ (h.clean j cj _ hj' e).2
+    · rcases getElem?_set_cases hj with ⟨rfl, rfl⟩ | ⟨hne', hj'⟩
+      · have := hlt _ (h.fresh i ci f hi' hfi).1
+        simp only [freshOf, cleanOf]
+        exact ⟨fun e => by injection e with e; exact Nat.ne_of_gt this e, List.not_mem_nil⟩
+      · exact h.distinct i j ci cj f hi' hj' hij hfi
+  case commit f0 w r cl op rest hpc hprog =>
+    obtain ⟨hA, hB, hC⟩ := commit_facts hI h.progs hc hpc
+    intro i j ci cj f hi hj hij hfi
+    simp only [] at hi hj ⊢
+    rcases getElem?_set_cases hi with ⟨rfl, rfl⟩ | ⟨hne, hi'⟩
+    · simp [freshOf] at hfi
+    · rcases getElem?_set_cases hj with ⟨rfl, rfl⟩ | ⟨hne', hj'⟩
+      · simp only [freshOf, cleanOf]
+        refine ⟨by simp, fun hm => ?_⟩
+        rcases hC f hm with h3 | h3
+        · exact (h.fresh i ci f hi' hfi).2 h3
+        · have := (h.distinct i j ci c f hi' hc hne hfi).1
+          simp only [hpc, freshOf] at this
+          exact this h3.symm
+      · exact h.distinct i j ci cj f hi' hj' hij hfi
+  case clean r x cl hpc =>
+    intro i j ci cj f hi hj hij hfi
+    simp only [] at hi hj ⊢
+    rcases getElem?_set_cases hi with ⟨rfl, rfl⟩ | ⟨hne, hi'⟩
+    · simp [freshOf] at hfi
+    · rcases getElem?_set_cases hj with ⟨rfl, rfl⟩ | ⟨hne', hj'⟩
+      · have := (h.distinct i j ci c f hi' hc hne hfi).2
+        simp only [hpc, cleanOf] at this
+        simp only [freshOf, cleanOf]
+        exact ⟨by simp, fun hm => this (List.mem_cons_of_mem _ hm)⟩
+      · exact h.distinct i j ci cj f hi' hj' hij hfi
+  case unlink r f0 hpc =>
+    intro i j ci cj f hi hj hij hfi
+    simp only [] at hi hj ⊢
+    rcases getElem?_set_cases hi with ⟨rfl, rfl⟩ | ⟨hne, hi'⟩
+    · simp [freshOf] at hfi
+    · rcases getElem?_set_cases hj with ⟨rfl, rfl⟩ | ⟨hne', hj'⟩
+      · simp [freshOf, cleanOf]
+      · exact h.distinct i j ci cj f hi' hj' hij hfi
+  all_goals
+    exact (F_frame (refs := refs) hc (by rw [‹c.pc = _›]; exact fun _ h => h) (by rw [‹c.pc = _›]; exact fun _ h => h) _ _).2.1
+      h.distinct
+
+theorem FClean_step {refs : DB → List FName} {db0 : DB} {s : Sys DB Res} (hI : Inv db0 s)
+    (h : FInv refs s) (cid : Nat) : FClean refs (step s cid) := by
+  apply step_cases s cid h.clean
+  intro c s' hc hs
+  have hlt := h.lt
+  have hrefd := h.refd
+  simp only [FLt, FRefd] at hlt hrefd
+  cases hs
+  case write rt b rest hpc hprog =>
+    intro i ci x hi hx
+    simp only [] at hi ⊢
+    rcases getElem?_set_cases hi with ⟨rfl, rfl⟩ | ⟨hne, hi'⟩
+    · simp [cleanOf] at hx
+    · have := h.clean i ci x hi' hx
+      exact ⟨this.1, Nat.lt_succ_of_lt this.2⟩
+  case commit f0 w r cl op rest hpc hprog =>
+    obtain ⟨hA, hB, hC⟩ := commit_facts hI h.progs hc hpc
+    intro i ci x hi hx
+    simp only [] at hi ⊢
+    rcases getElem?_set_cases hi with ⟨rfl, rfl⟩ | ⟨hne, hi'⟩
+    · simp only [cleanOf] at hx
+      refine ⟨hB x hx, ?_⟩
+      rcases hC x hx with h3 | h3
+      · exact hlt _ (hrefd _ h3)
+      · exact hlt _ (h.fresh i c x hc (by rw [hpc]; exact h3.symm)).1
+    · have ⟨h1, h2⟩ := h.clean i ci x hi' hx
+      refine ⟨fun hw => ?_, h2⟩
+      rcases hA x hw with h3 | h3
+      · exact h1 h3
+      · exact (h.distinct cid i c ci x hc hi' (Ne.symm hne) (by rw [hpc]; exact h3.symm)).2 hx
+  case clean r x0 cl hpc =>
+    intro i ci x hi hx
+    simp only [] at hi ⊢
+    rcases getElem?_set_cases hi with ⟨rfl, rfl⟩ | ⟨hne, hi'⟩
+    · simp only [cleanOf] at hx
+      exact h.clean i c x hc (by rw [hpc]; exact List.mem_cons_of_mem _ hx)
+    · exact h.clean i ci x hi' hx
+  case unlink r f0 hpc =>
+    intro i ci x hi hx
+    simp only [] at hi ⊢
+    rcases getElem?_set_cases hi with ⟨rfl, rfl⟩ | ⟨hne, hi'⟩
+    · simp [cleanOf] at hx
+    · exact h.clean i ci x hi' hx
+  all_goals
+    exact (F_frame hc (by rw [‹c.pc = _›]; exact fun _ h => h) (by rw [‹c.pc = _›]; exact fun _ h => h) _ _).2.2 h.clean
+
+theorem FInv_step {refs : DB → List FName} {db0 : DB} {s : Sys DB Res} (hI : Inv db0 s)
+    (h : FInv refs s) (cid : Nat) : FInv refs (step s cid) :=
+  ⟨ProgsSafe_step h.progs cid, FLt_step h cid, FRefd_step hI h cid, FFresh_step hI h cid,
+    FDistinct_step hI h cid, FClean_step hI h cid⟩
+
+theorem FInv_run {refs : DB → List FName} {db0 : DB} {s : Sys DB Res} (hI : Inv db0 s)
+    (h : FInv refs s) (sched : List Nat) : FInv refs (run s sched) := by
+  induction sched generalizing s with
+  | nil => exact h
+  | cons a l ih => exact ih (Inv_step hI a) (FInv_step hI h a)
+
+theorem FInv_init {refs : DB → List FName} {s : Sys DB Res} (hp : ProgsSafe refs s)
+    (hidle : ∀ c ∈ s.clients, c.pc = Pc.idle ∧ c.results = [])
+    (hfresh : ∀ f ∈ s.files, f < s.nextFile) (h0 : ∀ x ∈ refs s.db, x ∈ s.files) :
+    FInv refs s := by
+  have key : ∀ (i : Nat) (c : Client DB Res), s.clients[i]? = some c → c.pc = Pc.idle :=
+    fun i c hi => (hidle c (List.mem_of_getElem? hi)).1
+  refine ⟨hp, hfresh, h0, ?_, ?_, ?_⟩
+  · intro i c f hi hf
+    rw [key i c hi] at hf
+    simp [freshOf] at hf
+  · intro i j ci cj f hi hj hne hf
+    rw [key i ci hi] at hf
+    simp [freshOf] at hf
+  · intro i c x hi hx
+    rw [key i c hi] at hx
+    simp [cleanOf] at hx
+
+theorem FInv_crash {refs : DB → List FName} {s : Sys DB Res} (h : FInv refs s) (victim : Nat) :
+    FInv refs (crash s victim) := by
+  unfold crash
+  split
+  · exact h
+  · rename_i c hc
+    have hF := F_frame (refs := refs) (c' := { c with prog := [], pc := .idle }) hc
+      (by intro f hf; simp [freshOf] at hf) (by intro x hx; simp [cleanOf] at hx)
+      (if s.lock = some victim then none else s.lock) s.log
+    refine ⟨?_, h.lt, h.refd, hF.1 h.fresh, hF.2.1 h.distinct, hF.2.2 h.clean⟩
+    intro ci hci fr rt b hm
+    rcases List.mem_iff_getElem?.1 hci with ⟨i, hi⟩
+    rcases getElem?_set_cases hi with ⟨_, rfl⟩ | ⟨_, hi'⟩
+    · simp at hm
+    · exact h.progs ci (List.mem_of_getElem? hi') fr rt b hm
+
 end DC.Conc
